@@ -2,7 +2,10 @@
 // verification harness. Without a hook it forwards to math/rand.
 package vrand
 
-import "math/rand"
+import (
+	"math/rand"
+	"sync/atomic"
+)
 
 type Source = rand.Source
 
@@ -12,7 +15,7 @@ type Rand struct {
 	ID int
 }
 
-var nextID int
+var nextID int64
 
 // IntnHook, when set, decides Intn results (r identifies the generator: generators are numbered
 // in creation order). Int31Hook likewise.
@@ -24,8 +27,7 @@ var (
 func NewSource(seed int64) Source { return rand.NewSource(seed) }
 
 func New(src Source) *Rand {
-	nextID++
-	return &Rand{r: rand.New(src), ID: nextID}
+	return &Rand{r: rand.New(src), ID: int(atomic.AddInt64(&nextID, 1))}
 }
 
 func (r *Rand) Intn(n int) int {
